@@ -28,6 +28,11 @@ def generate(seed, tier):
     S = core.Streams(seed)
     fam = S['swarm'].choice(FAMS)
     ops, info = econgen.gen_program(seed, family=fam, tight=S['swarm'].random() < 0.7)
+    if S['swarm'].random() < 0.4:
+        # not only the generator's canonical declaration order: a seeded dependency-respecting order
+        from . import c08
+        order = c08.linear_extension(ops, S['schedule'])
+        ops = [ops[i] for i in order]
     return {'kind': 'ECON', 'family': info['family'], 'ops': ops}
 
 
